@@ -9,7 +9,8 @@ From Coq Require Import String List.
 From CMinx Require Import Base.Str Model.Lexer Model.Parser Model.DocTypes Model.Aggregator
      Spec.EntrySpec Spec.AggSpec Gen.SourceLiterals Proofs.AggInv Proofs.SpecLinks Proofs.LiteralsMatch
      Base.PySem Gen.PySource Proofs.SourceMatch Model.Writer
-     Proofs.SourceMatch2.
+     Proofs.SourceMatch2
+     Model.Pipeline Proofs.SourceMatch3.
 Import ListNotations.
 
 (* the main refinement: under default settings the entry list (kind and name, in order) of a
@@ -167,3 +168,15 @@ Theorem C02_enterDocumented_command_matches_source :
            (documented st) (py_class_stack (class_stack st)) (awaiting st) (py_def_stack (def_stack st))).
 Proof. exact enterDocumented_command_matches_source. Qed.
 Print Assumptions C02_enterDocumented_command_matches_source.
+
+(* py2coq batch 5: every entry class resolves process() to its own method; the class hierarchy read from documentation_types.py is the one the model was written against *)
+Theorem C02_dispatch_hierarchy_pinned : PySource.dispatch_process_hierarchy = expected_hierarchy.
+Proof. exact dispatch_hierarchy_pinned. Qed.
+Print Assumptions C02_dispatch_hierarchy_pinned.
+
+Theorem C02_dispatch_entries_resolve_to_own_method :
+  forallb (fun row => if str_eqb (snd (snd (snd row))) (s"entry")
+                      then str_eqb (fst row) (fst (snd (snd row))) else true)
+          PySource.dispatch_process_hierarchy = true.
+Proof. exact dispatch_entries_resolve_to_own_method. Qed.
+Print Assumptions C02_dispatch_entries_resolve_to_own_method.
